@@ -24,7 +24,7 @@ pub fn instances(tier: Tier) -> Vec<Prog> {
     let mut out = vec![];
     let (fs, fb) = if tier == Tier::Thorough { (4usize, 5usize) } else { (3, 4) };
     let fill = fb;
-    let base = Menu { vts: vec![VT::Int], datas: vec![], codatas: vec![], ints: vec![1, 5], fix: false, exec: true, redex: false, vars_per_type: 3, alias_patterns: false, irrefutable_matches: false, default_arms: false, nested_patterns: false };
+    let base = Menu { vts: vec![VT::Int], datas: vec![], codatas: vec![], ints: vec![1, 5], fix: false, exec: true, redex: false, vars_per_type: 3, alias_patterns: false, projection_patterns: false, irrefutable_matches: false, default_arms: false, nested_patterns: false };
     let g = Gen::new(base.clone());
 
     // S1: structural recursion over Nat using a parameter after the recursive call:
